@@ -1,8 +1,8 @@
-import N0Verif.Proofs.XPathCreate
+import N0Verif.Proofs.XPathCreate2
 import N0Verif.Proofs.XPathDeleteRec
 /-!
   Mixed histories: any finite interleaving of C02 writes (to existing nodes), C03 creations
-  (a `CStep` path below an existing dict node), C05 deletions (with and without `recursively`)
+  (a `CStep` path below an existing dict node, or — first step `[new()]`/`[len]` — below a list), C05 deletions (with and without `recursively`)
   and pops, each addressed by the canonical path text of the *current* state.
 
   Reference semantics on plain trees: `setAt`, `createIn`, `delAt`, `pruneUp`.
@@ -20,7 +20,8 @@ open N0 N0.Py N0.Val N0.XPath
 inductive Op
   /-- `d[path(p)] = v` for an existing node `p` (C02) -/
   | write (p : Pos) (v : Val)
-  /-- `d[path(q) ++ steps] = v`: creation below the existing dict node `q` (C03) -/
+  /-- `d[path(q) ++ steps] = v`: creation below the existing node `q` — a dict, or (first step
+  `[new()]`/`[len]`) a list (C03) -/
   | create (q : Pos) (s : CStep) (steps : List CStep) (v : Val)
   /-- `d.delete(path(p), recursively)` for an existing node `p` (C05) -/
   | del (p : Pos) (recursively : Bool)
@@ -76,8 +77,8 @@ def runOp (fuel : Nat) (t : Val) (op : Op) : Val × PyM (Option Val) :=
 def ValidOp (t : Val) : Op → Prop
   | .write p _ => PlainPos p ∧ p ≠ [] ∧ ∃ c, getAt t p = some c
   | .create q s steps _ =>
-    PlainPos q ∧ (∃ kcls nkvs, getAt t q = some (.dict kcls nkvs)) ∧
-      s.first ∧ (∀ e, s ≠ .idx e) ∧ (∀ x ∈ steps, x.later) ∧ GOk (s :: steps)
+    PlainPos q ∧ s.first ∧ (∀ x ∈ steps, x.later) ∧ GOk (s :: steps) ∧
+      (s = .idx sNew → ¬ PlainListEncloses t q)
   | .del p _ => PlainPos p ∧ p ≠ [] ∧ ∃ c, getAt t p = some c
   | .pop p _ _ => PlainPos p ∧ p ≠ [] ∧ ∃ c, getAt t p = some c
 
@@ -265,19 +266,17 @@ theorem runOp_ok (cls : Cls) (kvs : List (Str × Val)) (op : Op) (t' : Val) (fue
     have h1 := setItem_existing cls kvs p c v t' hp hne hget ha fuel hf
     simp only [runOp, opPath, h1, obsOp]
   | create q s steps v =>
-    obtain ⟨hp, ⟨kcls, nkvs, hget⟩, hfirst, hidx, hsteps, hg⟩ := hv
-    simp only [applyOp, createRef, hget, Option.bind] at ha
-    cases hc : createIn (.dict kcls nkvs) (s :: steps) v with
-    | none => simp [hc] at ha
-    | some cur' =>
-      simp only [hc] at ha
-      have hs : PlainKey s.nameOf := by
-        cases s with
-        | name n => exact hfirst
-        | elem n e => exact hfirst
-        | idx e => exact absurd rfl (hidx e)
-      have h1 := setItem_create_steps cls kvs q kcls nkvs s steps v cur' t' fuel hp hget hs hidx hsteps hg hc ha hf
-      simp only [runOp, opPath, h1, obsOp]
+    obtain ⟨hp, hfirst, hsteps, hg, hencl⟩ := hv
+    simp only [applyOp, createRef] at ha
+    cases hget : getAt (.dict cls kvs) q with
+    | none => simp [hget] at ha
+    | some cur =>
+      cases hc : createIn cur (s :: steps) v with
+      | none => simp [hget, hc] at ha
+      | some cur' =>
+        simp only [hget, hc, Option.bind] at ha
+        have h1 := setItem_create_any cls kvs q cur cur' s steps v t' fuel hp hget hfirst hsteps hg hc ha hencl hf
+        simp only [runOp, opPath, h1, obsOp]
   | del p r =>
     obtain ⟨hp, hne, c, hget⟩ := hv
     simp only [applyOp, delRef] at ha
